@@ -669,11 +669,66 @@ def auxiliary_fluents_initialised(idx: Index, rep: Report, rule: str) -> None:
     rep.require_min(rule, "add_fluent_sites_in_compilers", 15)
 
 
+def time_keys_normalised(idx: Index, rep: Report, rule: str) -> None:
+    """The per-timing tables (_effects, _simulated_effects, _fluents_assigned, _fluents_inc_dec, …) are keyed by
+    `Timing`. A parameter declared as a *TimeExpression* (a Timing, a Timepoint, a number) must be normalised
+    (`timing = Timing.from_time(timing)`) before it is used as a key or handed to the conflict checks; a raw key
+    misses the entries stored under the equivalent Timing, so the conflict verdict depends on how the caller spelled
+    the time — and with it on the insertion order."""
+    from ..dataflow import reaching_defs
+
+    n = 0
+    n_norm = 0
+    for f in idx.all_funcs():
+        if not f.module.name.startswith("unified_planning.model"):
+            continue
+        raw = []
+        a = f.node.args
+        for arg in list(a.posonlyargs) + list(a.args) + list(a.kwonlyargs):
+            # (a Union with TimeInterval is normalised under an isinstance test: interval tables, not in this rule)
+            if arg.annotation is not None and "TimeExpression" in norm(arg.annotation) and "TimeInterval" not in norm(arg.annotation):
+                raw.append(arg.arg)
+        if not raw:
+            continue
+        cfg = cfg_of(f)
+        rd = reaching_defs(cfg)
+        for node in cfg.nodes:
+            if node.ast is None or node.kind not in ("stmt", "test", "iter", "return"):
+                continue
+            keys = []
+            for x in ast.walk(node.ast):
+                if isinstance(x, ast.Call) and isinstance(x.func, ast.Attribute) and x.func.attr in ("get", "setdefault", "pop") and x.args and isinstance(x.args[0], ast.Name) and x.args[0].id in raw and isinstance(x.func.value, ast.Attribute) and norm(x.func.value.value) == "self":
+                    keys.append((x.args[0].id, x))
+                elif isinstance(x, ast.Subscript) and isinstance(x.slice, ast.Name) and x.slice.id in raw and isinstance(x.value, ast.Attribute) and norm(x.value.value) == "self":
+                    keys.append((x.slice.id, x))
+                elif isinstance(x, ast.Compare) and len(x.ops) == 1 and isinstance(x.ops[0], (ast.In, ast.NotIn)) and isinstance(x.left, ast.Name) and x.left.id in raw and isinstance(x.comparators[0], ast.Attribute) and norm(x.comparators[0].value) == "self":
+                    keys.append((x.left.id, x))
+                elif isinstance(x, ast.Call) and call_name(x) in ("check_conflicting_effects", "check_conflicting_simulated_effects"):
+                    for arg in x.args:
+                        if isinstance(arg, ast.Name) and arg.id in raw:
+                            keys.append((arg.id, x))
+            for var, x in keys:
+                n += 1
+                defs = rd[node].get(var, set())
+                unnormalised = cfg.entry in defs
+                rep.check(not unnormalised, rule, f"{f.short}: `{var}` is a Timing when it is used as a key", f.loc(x), construct=f"{norm(x)[:70]} in {f.short}", detail="" if not unnormalised else f"`{var}` is declared as a TimeExpression and reaches this use without passing through Timing.from_time: a Timepoint or a number does not find the entries stored under the equivalent Timing (the simulated effect at that time, the recorded assignments), so a conflicting effect is accepted in one insertion order and rejected in the other", function=f.qualname)
+        for node in cfg.nodes:
+            if node.ast is not None and node.kind == "stmt" and isinstance(node.ast, ast.Assign) and isinstance(node.ast.value, ast.Call) and call_name(node.ast.value) == "from_time":
+                n_norm += 1
+    rep.count("time_keyed_uses", n)
+    rep.count("from_time_normalisations", n_norm)
+    rep.require_min(rule, "time_keyed_uses", 4)
+
+
+def c24(idx: Index, rep: Report, tier: str) -> None:
+    time_keys_normalised(idx, rep, "C24.4 time-keys-normalised")
+
+
 def c09(idx: Index, rep: Report, tier: str) -> None:
     auxiliary_fluents_initialised(idx, rep, "C09.5 T17 added-fluents-initialised")
 
 
-EXTRA2 = {"C09": c09, "C04": c04, "C05": c05, "C07": c07, "C06": c06, "C08": c08, "C11": c11, "C12": c12, "C13": c13, "C16": c16, "C22": c22, "C23": c23}
+EXTRA2 = {"C09": c09, "C24": c24, "C04": c04, "C05": c05, "C07": c07, "C06": c06, "C08": c08, "C11": c11, "C12": c12, "C13": c13, "C16": c16, "C22": c22, "C23": c23}
 
 
 def run_extra2(prop: str, idx: Index, rep: Report, tier: str) -> None:
